@@ -136,6 +136,7 @@ int main(void) {
 				for (q = strtok_r(t + 2, ":", &sv2); q && nf < 4; q = strtok_r(NULL, ":", &sv2)) f[nf++] = q;
 				if (strcmp(f[0], "-")) { char *sv3 = NULL, *ix;
 					for (ix = strtok_r(f[0], ".", &sv3); ix; ix = strtok_r(NULL, ".", &sv3)) { KSI_TlvElement *c = NULL;
+						if (par->subList == NULL) { KSI_TlvElement *dummy = NULL; KSI_TlvElement_getElement(par, 0x1ffe, &dummy); KSI_TlvElement_free(dummy); }   /* a parsed element: expand it */
 						if (par->subList == NULL || KSI_TlvElementList_elementAt(par->subList, (size_t)atoi(ix), &c) != KSI_OK || c == NULL) { rc = -9; break; }
 						c = KSI_TlvElement_ref(c); KSI_TlvElement_free(par); par = c; } }
 				if (rc == KSI_OK) {
@@ -148,6 +149,14 @@ int main(void) {
 						if (rc == KSI_OK) rc = KSI_TlvElement_setOctetString(par, (unsigned)atoi(f[1]), os);
 						KSI_OctetString_free(os);
 					} else if (op == 'r') { KSI_TlvElement *gone = NULL; rc = KSI_TlvElement_removeElement(par, (unsigned)atoi(f[1]), &gone); KSI_TlvElement_free(gone); }
+					else if (op == 'g') { size_t ql = 0; rc = KSI_TlvElement_serialize(par, NULL, 0, &ql, KSI_TLV_OPT_NO_HEADER); }      /* g:<path> the payload length of the element at the path is asked for */
+					else if (op == 'p') {     /* p:- the root is serialized and parsed again */
+						size_t ql = 0, sl = 0; unsigned char *buf; KSI_TlvElement *again = NULL;
+						rc = KSI_TlvElement_serialize(root, NULL, 0, &ql, 0);
+						if (rc == KSI_OK) { buf = H_MALLOC(ql + 1); keep[nk++] = buf; rc = KSI_TlvElement_serialize(root, buf, ql, &sl, 0);
+							if (rc == KSI_OK) rc = KSI_TlvElement_parse(buf, sl, &again);
+							if (rc == KSI_OK) { KSI_TlvElement_free(par); par = NULL; KSI_TlvElement_free(root); root = again; } }
+					}
 					else rc = -8;
 				}
 				KSI_TlvElement_free(par);
@@ -160,6 +169,54 @@ int main(void) {
 			printf("\n");
 			KSI_TlvElement_free(root);
 			for (k = 0; k < nk; k++) free(keep[k]);
+		} else if (line[0] == 'Y') {
+			/* Y <roottag> <op>...   the same behaviours through the tree codec (KSI_TLV): a:<path>:<elhex> KSI_TLV_appendNestedTlv of the parsed element |
+			 * s:<path>:<elhex> the child with the element's tag is replaced (KSI_TLV_replaceNestedTlv), appended when there is none, left alone (0x10a) when there are
+			 * several | r:<path>:<tag> the child with the tag is taken out of the nested list | g:<path> KSI_TLV_getRawValue | p:- serialize + KSI_TLV_parseBlob
+			 * after every op the root is serialized and cloned -> Y rc,ser-rc:hex,clone ... */
+			KSI_TLV *root = NULL; char *sv = NULL, *t;
+			t = strtok_r(line + 2, " \n", &sv); KSI_TLV_new(ctx, (unsigned)atoi(t), 0, 0, &root);
+			printf("Y");
+			while ((t = strtok_r(NULL, " \n", &sv)) != NULL) {
+				char op = t[0]; char *f[4] = {0}; int nf = 0; char *sv2 = NULL, *q; KSI_TLV *par = root; int rc = KSI_OK;
+				for (q = strtok_r(t + 2, ":", &sv2); q && nf < 4; q = strtok_r(NULL, ":", &sv2)) f[nf++] = q;
+				if (strcmp(f[0], "-")) { char *sv3 = NULL, *ix;
+					for (ix = strtok_r(f[0], ".", &sv3); ix; ix = strtok_r(NULL, ".", &sv3)) { KSI_LIST(KSI_TLV) *l = NULL; KSI_TLV *c = NULL;
+						if (KSI_TLV_getNestedList(par, &l) != KSI_OK || KSI_TLVList_elementAt(l, (size_t)atoi(ix), &c) != KSI_OK || c == NULL) { rc = -9; break; }
+						par = c; } }
+				if (rc == KSI_OK) {
+					KSI_LIST(KSI_TLV) *l = NULL; size_t k, cnt = 0, at = 0;
+					if (op == 'a' || op == 's') { size_t bl = 0; unsigned char *raw = hx_dec(f[1], &bl); KSI_TLV *e = NULL;
+						rc = KSI_TLV_parseBlob(ctx, raw, bl, &e); free(raw);
+						if (rc == KSI_OK && op == 's') { rc = KSI_TLV_getNestedList(par, &l);
+							for (k = 0; rc == KSI_OK && k < KSI_TLVList_length(l); k++) { KSI_TLV *c = NULL; KSI_TLVList_elementAt(l, k, &c); if (c && KSI_TLV_getTag(c) == KSI_TLV_getTag(e)) { cnt++; at = k; } } }
+						if (rc == KSI_OK) {
+							/* KSI_TLV_appendNestedTlv adds to "the internal list": a target still in raw form is expanded first, as the SDK's own callers do
+							 * (on a raw target with a payload the call would start a new list and silently drop that payload) */
+							if (op == 'a' || cnt == 0) { KSI_LIST(KSI_TLV) *l0 = NULL; rc = KSI_TLV_getNestedList(par, &l0); if (rc == KSI_OK) rc = KSI_TLV_appendNestedTlv(par, e); if (rc == KSI_OK) e = NULL; }
+							else if (cnt == 1) { KSI_TLV *old = NULL; KSI_TLVList_elementAt(l, at, &old); rc = KSI_TLV_replaceNestedTlv(par, old, e); if (rc == KSI_OK) e = NULL; }
+							else rc = 0x10a;
+						}
+						KSI_TLV_free(e);
+					} else if (op == 'r') { unsigned tag = (unsigned)atoi(f[1]);
+						rc = KSI_TLV_getNestedList(par, &l);
+						for (k = 0; rc == KSI_OK && k < KSI_TLVList_length(l); k++) { KSI_TLV *c = NULL; KSI_TLVList_elementAt(l, k, &c); if (c && KSI_TLV_getTag(c) == tag) { cnt++; at = k; } }
+						if (rc == KSI_OK) { if (cnt == 1) { KSI_TLV *gone = NULL; rc = KSI_TLVList_remove(l, at, &gone); KSI_TLV_free(gone); } else rc = 0x10a; }
+					} else if (op == 'g') { const unsigned char *b = NULL; size_t bl = 0; rc = KSI_TLV_getRawValue(par, &b, &bl);
+					} else if (op == 'p') { unsigned char *ser = NULL; size_t sl = 0; KSI_TLV *again = NULL;
+						rc = KSI_TLV_serialize(root, &ser, &sl);
+						if (rc == KSI_OK) rc = KSI_TLV_parseBlob(ctx, ser, sl, &again);
+						if (rc == KSI_OK) { KSI_TLV_free(root); root = again; }
+						KSI_free(ser);
+					} else rc = -8;
+				}
+				{ unsigned char *ser = NULL; size_t sl = 0; KSI_TLV *cl = NULL; int sr = KSI_TLV_serialize(root, &ser, &sl);
+					printf(" %d,%d:", rc, sr); if (sr == KSI_OK) hx_print(ser, sl); else printf("-");
+					if (KSI_TLV_clone(root, &cl) == KSI_OK) { unsigned char *s2 = NULL; size_t l2 = 0; if (KSI_TLV_serialize(cl, &s2, &l2) == KSI_OK) printf(",%s", (sr == KSI_OK && l2 == sl && memcmp(s2, ser, sl) == 0) ? "same" : "diff"); else printf(",cserr"); KSI_free(s2); } else printf(",clerr");
+					KSI_TLV_free(cl); KSI_free(ser); }
+			}
+			printf("\n");
+			KSI_TLV_free(root);
 		} else if (line[0] == 'T') {
 			/* T <hex>: parse, then render with KSI_TLV_toString into heap buffers of EXACTLY n bytes for many n (ASan sees a write past the buffer);
 			 * every rendering must be NUL-terminated inside its buffer and a prefix of the full rendering -> T rc=.. full=<len> bad=<count> */
